@@ -223,7 +223,7 @@ def run_accept_loop(ctx: RunCtx) -> None:
     idle, maxc, grace = sc["idle"], sc["maxc"], sc["grace"]
     ctx.sample = sc
     ctx.case_key = ("a", idle, maxc, tuple((c["t"], c["hold"], c["pre"], c["post"]) for c in sc["clients"]))
-    sched = Scheduler(ch, ctx.log, trace_files={T.__file__}, preempt_budget=3, horizon=2500, time_leap=True,
+    sched = Scheduler(ch, ctx.log, trace_files={T.__file__}, preempt_budget=3, horizon=2500, time_leap=True, start_delays=(0.4, 2.5, 90.0),
                       wall_limit=60.0)
     H: dict[str, Any] = {
         "conns": {},  # fd -> record
@@ -584,7 +584,7 @@ def run_launcher(ctx: RunCtx) -> None:
     sc = gen_launch_scenario(ch)
     ctx.sample = {"part": "b", **sc}
     ctx.case_key = ("b", repr(sc))
-    sched = Scheduler(ch, ctx.log, trace_files={L.__file__, T.__file__}, preempt_budget=3, horizon=4000, time_leap=True,
+    sched = Scheduler(ch, ctx.log, trace_files={L.__file__, T.__file__}, preempt_budget=3, horizon=4000, time_leap=True, start_delays=(0.4, 2.5, 90.0),
                       wall_limit=60.0)
     simtime = SimTime(sched)
     w = sl.LWorld(sched, ch, ctx.log, simtime)
